@@ -3151,6 +3151,12 @@ class WBEMConnection:  # pylint: disable=too-many-instance-attributes
                                 "got {0} object", instance.__class__.__name__),
                         conn_id=self.conn_id)
 
+                if instance.path is None:
+                    raise CIMXMLParseError(
+                        "Expecting VALUE.NAMEDINSTANCE elements in result "
+                        "list, got an INSTANCE element without instance path",
+                        conn_id=self.conn_id)
+
                 # The EnumerateInstances CIM-XML operation returns instances as
                 # VALUE.NAMEDINSTANCE elements which represent the instance
                 # paths as INSTANCENAME elements which do not contain namespace
